@@ -76,7 +76,7 @@ def _validate_group(dom, spec, segs, path, tag, timeout, xmx, max_rejections, cl
 
 
 def validate(chk, dom, spec, trace_path, tag=None, timeout=1500, xmx="4g", max_rejections=8,
-             class_fn=None, env=None, cfg=None, parallel=1):
+             class_fn=None, env=None, cfg=None, parallel=1, groups=None):
     """Validate an ndjson trace against a trace spec. Rejected segments are reported as violations
     (or known findings) and removed so the rest of the trace is still checked. With parallel > 1 the
     segments are distributed over several TLC processes (segments are independent by construction).
@@ -85,8 +85,9 @@ def validate(chk, dom, spec, trace_path, tag=None, timeout=1500, xmx="4g", max_r
     events = vlib.read_ndjson(trace_path)
     total_events = len(events)
     segs = split_segments(events)
-    n = max(1, min(parallel, len(segs)))
-    # contiguous groups of roughly equal event count
+    # `groups` (default: = parallel) contiguous groups of roughly equal event count, at most `parallel` TLC processes at a time
+    # (smaller groups bound the heap one TLC process needs: the whole group is one TLA+ value)
+    n = max(1, min(groups or parallel, len(segs)))
     groups = [[] for _ in range(n)]
     target = total_events / float(n)
     gi, acc = 0, 0
@@ -104,7 +105,7 @@ def validate(chk, dom, spec, trace_path, tag=None, timeout=1500, xmx="4g", max_r
     if len(groups) == 1:
         results = [work(0)]
     else:
-        with ThreadPoolExecutor(max_workers=len(groups)) as ex:
+        with ThreadPoolExecutor(max_workers=max(1, min(parallel, len(groups)))) as ex:
             results = list(ex.map(work, range(len(groups))))
     states = nev = nseg = 0
     for k, r in enumerate(results):
